@@ -34,7 +34,7 @@ ElemNameS(so, nm) == IF nm.p = "" THEN (IF so.snake THEN Snake(nm.l) ELSE nm.l)
                      ELSE (IF so.snake THEN Snake(<<nm.p>> \o <<":">> \o nm.l) ELSE <<nm.p>> \o <<":">> \o nm.l)
 AttrNameS(so, nm) == LET l == IF so.snake THEN Snake(nm.l) ELSE nm.l IN IF nm.p = "" THEN l ELSE <<nm.p>> \o <<":">> \o l
 SScalar(so, cs) == LET s == IF so.escdec THEN XmlEscape(cs) ELSE cs IN IF so.cast THEN CastDefault(s) ELSE VS(s)
-SeqV(i) == [t |-> "i", v |-> <<Digit(i)>>]
+SeqV(i) == [t |-> "i", v |-> Digits(i)]
 PutF(f, k, v) == [x \in (DOMAIN f) \cup {k} |-> IF x = k THEN v ELSE f[x]]
 GroupPut(f, k, v) == IF k \in DOMAIN f THEN [f EXCEPT ![k] = IF IsList(@) THEN VL(Append(@.it, v)) ELSE VL(<<@, v>>)]
                      ELSE PutF(f, k, v)
@@ -66,8 +66,10 @@ SeqElemVal(e, so) ==
 DecodeSeq(d, so) == VM(ElemNameS(so, d.nm) :> SeqElemVal(d, so))
 
 (********************************* encode ***********************************)
-SeqNum(v, so) == IF IsMap(v) /\ SSeqK(so) \in DOMAIN v.kv THEN
-                    LET c == v.kv[SSeqK(so)].v[1] IN CHOOSE i \in 0..9 : Digit(i) = c
+DigitValOf(c) == CHOOSE i \in 0..9 : Digit(i) = c
+RECURSIVE NumOfDigits(_, _)
+NumOfDigits(ds, acc) == IF ds = <<>> THEN acc ELSE NumOfDigits(Tail(ds), acc * 10 + DigitValOf(Head(ds)))
+SeqNum(v, so) == IF IsMap(v) /\ SSeqK(so) \in DOMAIN v.kv THEN NumOfDigits(v.kv[SSeqK(so)].v, 0)
                  ELSE 9999999
 RECURSIVE EncSeqVal(_, _, _)
 EncSeqVal(key, v, so) ==
